@@ -27,7 +27,8 @@ CONSTANTS
 CHECK_DEADLOCK FALSE
 '''
 
-SEL_CFG = '''SPECIFICATION Spec
+SEL_CFG = '''INIT MCInit
+NEXT MCNext
 CONSTANTS
   KV = %(kv)s
   GL = %(gl)s
